@@ -44,6 +44,7 @@ REQUIRED_REACH = [
     "probe:execution_repeated_in_same_process",
     "probe:derived_failure_after_valid_original_in_same_process",
     "probe:derived_failure_alone",
+    "probe:failing_source_with_unusual_format_value",
     "probe:run_in_fresh_interpreter_with_flags:-O",
 ]
 
@@ -253,6 +254,9 @@ def twin_of(files: dict[str, bytes], roles: dict[str, str], mapping: str, define
 # one execution + verdict
 
 
+ODD_FORMATS = ["sfc", "SFC", "smc", "bin", "IPS", "Ips", ""]  # the unchanged tree writes an SFC image for anything but "ips"
+
+
 def build_files(case: dict[str, Any]) -> tuple[progen.Prog, dict[str, bytes], dict[str, str]]:
     prog = progen.Prog.from_record(case["prog"])
     ins = case.get("insert")
@@ -285,6 +289,13 @@ def run_single(case: dict[str, Any], stats: Stats) -> list[Violation]:
     knobs = case.get("knobs") or {}
     faults = case.get("faults") or []
     inserted = case.get("insert") is not None
+    if inserted and spec["entry"] == "cli" and case.get("odd_format") is not None:
+        # a failing source with an unusual -f value: whatever the tool makes of the value (another writer,
+        # a usage error), the failure of the source must not turn into exit status 0.  Only used with
+        # failing sources: nothing is demanded of what such a value produces for a valid one.
+        spec["format"] = ODD_FORMATS[case["odd_format"] % len(ODD_FORMATS)]
+        spec["copier"] = False
+        stats.bump("probe:failing_source_with_unusual_format_value")
     if case.get("repeat"):
         # the same execution twice in one process: the second attempt must be judged like the first
         # (state left behind by a failed attempt must not turn the next one into a "success")
@@ -483,7 +494,7 @@ def sub_cases(case: dict[str, Any], stats: Stats) -> Iterator[dict[str, Any]]:
             for bank in UNMAPPED_BANKS.get(prog.mapping, []):
                 yield dict(base, spec=specs[rng.choice(ENTRIES)], insert={"class": klass, "slot": s0, "addr": (bank << 16) | 0x8000}, knobs={})
         for e in ENTRIES:
-            yield dict(base, spec=specs[e], insert={"class": klass, "slot": s0}, knobs={}, repeat=rng.random() < 0.25)
+            yield dict(base, spec=specs[e], insert={"class": klass, "slot": s0}, knobs={}, repeat=rng.random() < 0.25, odd_format=rng.randrange(len(ODD_FORMATS)) if e == "cli" and rng.random() < 0.3 else None)
         others = [s for s in ok_slots if s is not s0]
         if case.get("padded"):
             others = others[-2:]  # every run scans > 64 KiB: the slots after the padding are the ones that matter
